@@ -13,9 +13,12 @@ Local Open Scope string_scope.
 Inductive modk := MGood | MThrow | MMissing | MSyntax | MNest.
 
 (* where an uncaught error is raised *)
+Inductive depth := D1 | D2 | D3.
+Definition depth_nat (d : depth) : nat := match d with D1 => 1 | D2 => 2 | D3 => 3 end.
+
 Inductive where_ :=
 | WTop                 (* throw 1; *)
-| WNested (d : nat)    (* d+1 nested lambda calls, innermost throws *)
+| WNested (d : depth)  (* 1..3 nested lambda calls, innermost throws *)
 | WFiber               (* inside a fiber *)
 | WTryFinally          (* try { throw 1; } finally { print("fin"); } *)
 | WCatch               (* try { throw 1; } catch e { throw 2; } *)
@@ -39,7 +42,7 @@ Inductive snip :=
 | SnTryCatch
 | SnFiberOk
 | SnCaptureOk
-| SnRange (k : nat)
+| SnRange (k : depth)
 | SnUseLeak
 | SnImport (m : modk)
 | SnUseMod (m : modk)
@@ -72,7 +75,7 @@ Fixpoint nest_close (d : nat) : string := match d with O => "" | S n => " })();"
 Definition render_where (w : where_) : string :=
   match w with
   | WTop => "throw 1;"
-  | WNested d => nest_open (S d) ++ "throw 1;" ++ nest_close (S d)
+  | WNested d => nest_open (depth_nat d) ++ "throw 1;" ++ nest_close (depth_nat d)
   | WFiber => "Fiber.new(|| { throw 1; }).call();"
   | WTryFinally => "try { throw 1; } finally { print(""fin""); }"
   | WCatch => "try { throw 1; } catch e { throw 2; }"
@@ -99,7 +102,7 @@ Definition render (s : snip) : string :=
   | SnTryCatch => "try { throw 7; } catch e { print(e); }"
   | SnFiberOk => "print(Fiber.new(|| { return 5; }).call());"
   | SnCaptureOk => "var c = nil; (|| { var x = 42; c = || x; })();"
-  | SnRange k => "for i in 0.." ++ show_nat k ++ " { print(i); }"
+  | SnRange k => "for i in 0.." ++ show_nat (depth_nat k) ++ " { print(i); }"
   | SnUseLeak => "print(c());"
   | SnImport m => "import """ ++ mod_path m ++ """ as " ++ mod_alias m ++ "; print(" ++ mod_alias m ++ ".v);"
   | SnUseMod m => "print(" ++ mod_alias m ++ ".v);"
@@ -125,7 +128,7 @@ Definition modk_of_N (n : N) : modk :=
   match n with 0%N => MGood | 1%N => MThrow | 2%N => MMissing | 3%N => MSyntax | _ => MNest end.
 Definition where_of_N (n : N) : where_ :=
   match n with
-  | 0%N => WTop | 1%N => WNested 0 | 2%N => WNested 1 | 3%N => WNested 2 | 4%N => WFiber | 5%N => WTryFinally
+  | 0%N => WTop | 1%N => WNested D1 | 2%N => WNested D2 | 3%N => WNested D3 | 4%N => WFiber | 5%N => WTryFinally
   | 6%N => WCatch | 7%N => WFinally | 8%N => WFinallyRet | 9%N => WClassDef | 10%N => WClassDefNested
   | 11%N => WCapture | _ => WBuiltin
   end.
@@ -146,7 +149,7 @@ Definition snip_of_group (g : list N) : snip :=
   | [9%N] => SnTryCatch
   | [10%N] => SnFiberOk
   | [11%N] => SnCaptureOk
-  | [12%N; k] => SnRange (N.to_nat k)
+  | [12%N; k] => SnRange (match k with 1%N => D1 | 2%N => D2 | _ => D3 end)
   | [13%N] => SnUseLeak
   | [14%N; m] => SnImport (modk_of_N m)
   | [15%N; m] => SnUseMod (modk_of_N m)
